@@ -34,9 +34,11 @@ func (w *WaitGroup) Add(d int) { vsched.WGAdd(uintptr(unsafe.Pointer(w)), d) }
 func (w *WaitGroup) Done()     { vsched.WGAdd(uintptr(unsafe.Pointer(w)), -1) }
 func (w *WaitGroup) Wait()     { vsched.WGWait(uintptr(unsafe.Pointer(w))) }
 
-type Once struct{ _ byte }
+// Once carries its identity in the value, not in its address: assigning
+// sync.Once{} to a field re-arms it, as it does for the real type.
+type Once struct{ id uint64 }
 
-func (o *Once) Do(f func()) { vsched.OnceDo(uintptr(unsafe.Pointer(o)), f) }
+func (o *Once) Do(f func()) { vsched.OnceDo(vsched.OnceKey(&o.id), f) }
 
 // Pool and Map are not scheduling-relevant for the explored scenarios: the
 // real ones are used (their internal synchronisation never waits for a managed
